@@ -31,6 +31,10 @@ def run(ctx):
         'establishes -- unless the list is sorted where it is stored; the '
         'per-step accumulation of the grid loss is conditioned on nothing '
         'but the presence of grids']
+    ctx.decided += [
+        'R9 argument selection over the resolved call graph: no positional '
+        'argument named like another parameter of its callee (the gravity / '
+        'geometry flags of the region factories are same-typed booleans)']
     ctx.not_decided += ['equality with the closed forms as numbers',
                         'dimension (Pa) -- see D_dim rule once armed']
     r1(ctx)
@@ -42,6 +46,9 @@ def run(ctx):
     ctx.min_instances('C14.R7', 2)
     r8(ctx)
     ctx.min_instances('C14.R8', 3)
+    from . import _argswap
+    _argswap.check(ctx, 'C14.R9', ('assembly', 'region', 'region_rodded',
+                                   'region_unrodded', 'table'))
     ctx.min_instances('C14.R1', 2)
     ctx.min_instances('C14.R2', 8)
     ctx.min_instances('C14.R3', 6)
